@@ -363,3 +363,15 @@ V("c06-recount-reordered-silent", "C06", HX, "            if key == b\"\" or isi
   "            if key == BLANK_NODE_HASH or key == b\"\":\n                continue\n            if isinstance(key, list):\n                continue\n            new_ref_count[key] += 1", expect="silent")
 V("c06-recount-arms-swapped-silent", "C06", HX, "            if node_type == NODE_TYPE_BRANCH:\n                keys_to_count.extend(node[:16])\n            elif node_type == NODE_TYPE_EXTENSION:\n                keys_to_count.append(node[1])",
   "            if node_type == NODE_TYPE_EXTENSION:\n                keys_to_count.append(node[1])\n            elif node_type == NODE_TYPE_BRANCH:\n                keys_to_count.extend(node[:16])", expect="silent")
+# --- found by tools/mutant_survey.py ------------------------------------------
+V("c15-scan-continue", "C15", SM, "                    branch_point = (self._branch_size - 1) - bit\n                    break", "                    branch_point = (self._branch_size - 1) - bit\n                    continue", rule="EFF5")
+V("c18-proof-ctor-key-unvalidated", "C18", SM, "        validate_is_bytes(key)\n        validate_is_bytes(value)\n        validate_length(branch, len(key) * 8)\n\n        self._key = key",
+  "        validate_is_bytes(value)\n        validate_length(branch, len(key) * 8)\n\n        self._key = key", rule="VAL2")
+V("c18-proof-ctor-value-unvalidated", "C18", SM, "        validate_is_bytes(key)\n        validate_is_bytes(value)\n        validate_length(branch, len(key) * 8)\n\n        self._key = key",
+  "        validate_is_bytes(key)\n        validate_length(branch, len(key) * 8)\n\n        self._key = key", rule="VAL2")
+# --- round-3 seeds C18 ---------------------------------------------------------
+V("c18-msg-percent-param", "C18", VA, "        raise ValidationError(f\"Value is not of type `bytes`: got '{type(value)}'\")", "        raise ValidationError(\"Value is not of type `bytes`: got %r\" % value)", rule="VALMSG")
+V("c18-msg-percent-tuple-silent", "C18", VA, "        raise ValidationError(f\"Value is not of type `bytes`: got '{type(value)}'\")", "        raise ValidationError(\"Value is not of type `bytes`: got %r\" % (type(value),))", expect="silent")
+V("c18-refcount-truthiness", "C18", HX, "        if ref_count is None:\n            if prune:", "        if not ref_count:\n            if prune:", rule="VAL3")
+V("c18-refcount-isnot-silent", "C18", HX, "        if ref_count is None:\n            if prune:\n                self._ref_count = defaultdict(int)\n            else:\n                self._ref_count = None\n        else:\n            if prune:",
+  "        if ref_count is None:\n            if not prune:\n                self._ref_count = None\n            else:\n                self._ref_count = defaultdict(int)\n        else:\n            if prune:", expect="silent")
